@@ -171,14 +171,14 @@ impl Property for C16 {
             json!({"base": "bundled", "path": path, "fmt": fmt.name(), "game": game, "src_game": game})
         } else if kind < 9 {
             let fmt = pick_fmt(tape);
-            let game = *tape.pick(games_for(fmt));
+            let game = if fmt == Fmt::Ecl && tape.chance(1, 3) { *tape.pick(MODERN_ECL_GAMES) } else { *tape.pick(games_for(fmt)) };
             let sub = tape.fork(tier.pick(200, 350));
             let mut sub = Tape::new(&sub);
             let f = gen_file(&mut sub, fmt, game, tier.pick(6, 14));
             json!({"base": "generated", "fmt": fmt.name(), "game": game, "src_game": game, "text": f.text})
         } else {
             let fmt = pick_fmt(tape);
-            let game = *tape.pick(games_for(fmt));
+            let game = if fmt == Fmt::Ecl && tape.chance(1, 3) { *tape.pick(MODERN_ECL_GAMES) } else { *tape.pick(games_for(fmt)) };
             let n = *tape.pick(&[0usize, 1, 3, 4, 8, 16, 64, 5, 12]);
             let style = tape.below(3);
             let bytes: Vec<u8> = (0..n).map(|_| match style { 0 => 0, 1 => 0xff, _ => tape.below(256) as u8 }).collect();
@@ -187,7 +187,7 @@ impl Property for C16 {
         // sometimes read the file as another game of the same format
         if tape.chance(1, 8) {
             let fmt = Fmt::parse(case["fmt"].as_str().unwrap());
-            let other = *tape.pick(games_for(fmt));
+            let other = if fmt == Fmt::Ecl && tape.chance(1, 3) { *tape.pick(MODERN_ECL_GAMES) } else { *tape.pick(games_for(fmt)) };
             if case["game"].as_str() != Some(other) { case["game"] = json!(other); }
         }
         let muts: Vec<Value> = (0..nmut).map(|_| gen_mutation(tape)).collect();
